@@ -36,6 +36,8 @@ PROP = {
          "finding": "C08-hq-seencheck-compares-canonical-with-raw", "facets": [], "checks": (1, 1), "shards": (1, 1), "timeout": (120, 120)},
         {"name": "c08-kf-hq-pipeline", "pkg": "./internal/pkg/preprocessor", "run": "^TestVerifKF_C08_HQCompareInPreprocess$", "kind": "kf",
          "finding": "C08-hq-seencheck-compares-canonical-with-raw", "facets": [], "checks": (1, 1), "shards": (1, 1), "timeout": (120, 120)},
+        {"name": "c08-kf-faileddup", "pkg": "./internal/pkg/verifsim", "run": "^TestVerifKF_Sim_FailedNodeRefetched$", "kind": "kf", "toolchain": "go126",
+         "finding": "C08-failed-node-loses-to-fresh-duplicate", "facets": [], "checks": (1, 1), "shards": (1, 1), "timeout": (300, 300)},
     ],
 }
 
